@@ -6,6 +6,7 @@ import random
 from typing import Any, Dict, Iterable, List, Optional
 
 from harness.core import OUTSIDE, Case, Check, Finding, call, canon, short
+from harness.core import jdump as jd
 
 Pts = List[List[int]]
 
@@ -258,6 +259,52 @@ def mk_line(pdm, co, pts, **kw):
     return pdm.PageXMLTextLine(coords=co.Coords(tup(pts)) if pts is not None else None, **kw)
 
 
+# ---------------------------------------------------------------------------------------
+# WAVE 4 — used objects.  "its vertices are INPUT POINTS", "the union of the INPUTS' boxes": the inputs of a derivation
+# are the coordinate objects as they were handed in, and they are the same objects the caller goes on using (the
+# children of the region, the cells of the row, the lines that were merged).  Every adapter therefore takes a deep
+# snapshot of every input Coords before the library call and reads it again afterwards: points, point_string and box
+# must be what they were (C03: a coordinates object "keeps the points in input order", its string "parses back to the
+# same points and box").  A derivation that is right but leaves an input changed is reported as C09:inputs-mutated.
+# ---------------------------------------------------------------------------------------
+
+def snap(c) -> Any:
+    """deep snapshot, by value, of everything a Coords object reports"""
+    if c is None:
+        return None
+    return canon({'points': [list(p) for p in c.points], 'point_string': c.point_string, 'box': dict(c.box),
+                  'xywh': [c.x, c.y, c.w, c.h], 'ltrb': [c.left, c.top, c.right, c.bottom]})
+
+
+def snaps(docs) -> List[Any]:
+    return [snap(getattr(d, 'coords', None)) if d is not None else None for d in docs]
+
+
+def mutated(before: List[Any], docs) -> List[Dict[str, Any]]:
+    """the inputs that no longer read as they did: [{'input': index, 'before': …, 'after': …}]"""
+    out = []
+    for i, (b, d) in enumerate(zip(before, docs)):
+        r = call(lambda: snap(getattr(d, 'coords', None)) if d is not None else None)
+        a = r['ok'] if 'ok' in r else r
+        if a != b:
+            out.append({'input': i, 'before': b, 'after': a})
+    return out
+
+
+def mk_coords(co, pts, form: str = 'tuples'):
+    """a coordinates object from the same points in each of its input forms"""
+    if pts is None:
+        return None
+    if form == 'string':
+        return co.Coords(' '.join(f'{p[0]},{p[1]}' for p in pts))
+    if form == 'lists':
+        return co.Coords([[p[0], p[1]] for p in pts])
+    return co.Coords(tup(pts))
+
+
+FORMS = ('tuples', 'tuples', 'string', 'lists')
+
+
 REGION_SLOTS = 2   # text_regions, lines
 PAGE_SLOTS = 4     # extra, columns, text_regions, lines
 
@@ -344,13 +391,20 @@ class C09(Check):
         'one-/two-vertex results (<= 2 points, points on one line) as sets, boxes and areas exactly, assigned '
         'coordinates point by point, outcomes as rejected-vs-accepted (no exception class is part of the '
         'statement); empty collections, documents / children without coordinates, non-child arguments of '
-        'add_child and regions with own Coords are outside the quantifier (tagged, differences only recorded).')
+        'add_child and regions with own Coords are outside the quantifier (tagged, differences only recorded). '
+        'USED OBJECTS (wave 4): every derivation is made on objects that are used again — inputs built in each input '
+        'form (tuples, lists, points string), derived from twice and in reversed order, callers called twice on the '
+        'same objects, attached children also added to a second container; the model being a pure function of the '
+        'points, its one answer is compared with each of these; every input Coords is snapshotted before and re-read '
+        'after (points, point_string, box): C09:inputs-mutated; table rows are built through make_rows_from_cells, '
+        'parse_tableregion and parse_pagexml_file with rowSpan / cellSpan / header present or absent per cell.')
     assumptions = [
         'scipy.spatial.ConvexHull is a deterministic function of the point array; its simplices form the boundary '
         'cycle of the strict convex hull (checked per sampled call by HullCert / cycleDict in the Lean driver)',
         'shapely Polygon(vs).area == |shoelace(vs)| / 2 exactly for integer coordinates below 2^26',
         'Python dict / defaultdict insertion order, tuple comparison and list membership mirrored by hand',
-        'children are not mutated after they were attached (the model records a child\'s coords at add time)',
+        'children are not mutated after they were attached (the model records a child\'s coords at add time; the '
+        'harness re-reads every child after every operation and reports a change as C09:inputs-mutated)',
     ]
     nontrivial_rule = ('distinct inputs; non-trivial = at least three points not all on one line (derive / area / '
                        'caller), a history with at least one add_child and one area read, or a cycle dict')
@@ -425,7 +479,7 @@ class C09(Check):
         return Case('derive', {'docs': docs, 'shift': [rng.randint(-3 * mag, 3 * mag), rng.randint(-3 * mag, 3 * mag)],
                                'shuffle_seed': rng.randrange(10 ** 6)}, tags)
 
-    def _history_case(self, rng: random.Random, tags) -> Case:
+    def _history_case(self, rng: random.Random, tags, share: bool = False) -> Case:
         elem = rng.choice(['region', 'region', 'page'])
         nslots = REGION_SLOTS if elem == 'region' else PAGE_SLOTS
         mag = rng.choice([4, 10, 100, 10 ** 6])
@@ -437,6 +491,9 @@ class C09(Check):
         kids = [[rng.randrange(nslots), pts()] for _ in range(rng.choice([0, 0, 1, 2]))]
         ops: List[Any] = []
         for _ in range(rng.randint(1, 10)):
+            if share and rng.random() < 0.15:
+                ops.append(['share', rng.randrange(8)])     # an attached child is also added to a second container
+                continue
             r = rng.random()
             if r < 0.40:
                 slot = rng.randrange(nslots)
@@ -511,6 +568,49 @@ class C09(Check):
         if which == 'merge_textregions':
             inp['region_of'] = [rng.randrange(2) for _ in groups]
         return Case('caller', inp, tags)
+
+    def _table_case(self, rng: random.Random, tags) -> Case:
+        """table rows with the optional cell attributes crossed with the geometry: rowSpan / cellSpan / header present
+        or absent per cell, spanning cells that reach beyond the other cells of their row, missing cells, row and
+        column numbers that are not contiguous, the cells listed in any order; through each of the three entries"""
+        entry = rng.choice(['cells', 'dict', 'xml'])
+        cells: List[Dict[str, Any]] = []
+        if rng.random() < 0.6:
+            # a grid: cell (r, c) is a w x h rectangle; a cell spanning k rows / columns is k times as high / wide and
+            # the places it covers hold no cell of their own
+            nr, nc = rng.randint(1, 4), rng.randint(1, 5)
+            w, h = rng.randint(1, 60), rng.randint(1, 30)
+            x0, y0 = rng.randint(-50, 500), rng.randint(-50, 500)
+            step, off = rng.choice([1, 1, 2, 5]), rng.choice([0, 0, 1, 7])
+            covered = set()
+            for r in range(nr):
+                for c in range(nc):
+                    if (r, c) in covered or rng.random() < 0.12:
+                        continue
+                    rs = rng.choice([None, None, 1, 1, 2, 2, 3])
+                    cs = rng.choice([None, None, None, 1, 2])
+                    kr, kc = min(rs or 1, nr - r), min(cs or 1, nc - c)
+                    for i in range(kr):
+                        for j in range(kc):
+                            covered.add((r + i, c + j))
+                    x, y = x0 + c * w, y0 + r * h
+                    pts = [[x, y], [x + kc * w, y], [x + kc * w, y + kr * h], [x, y + kr * h]]
+                    if rng.random() < 0.25:
+                        pts.insert(rng.randrange(4), [x + rng.randint(0, kc * w), y + rng.randint(0, kr * h)])
+                    if rng.random() < 0.15:
+                        rng.shuffle(pts)
+                    cells.append({'pts': pts, 'row': r * step + off, 'col': c * step + off, 'row_span': rs,
+                                  'cell_span': cs, 'header': rng.choice([None, None, 'true', 'false'])})
+        if not cells:
+            mag = rng.choice([5, 50, 5000])
+            style = rng.choice(['lattice', 'box', 'rand', 'dups'])
+            for i in range(rng.randint(1, 7)):
+                cells.append({'pts': self._rand_points(rng, rng.randint(1, 5), style, mag), 'row': rng.choice([0, 1, 2, 7, 10, 11]),
+                              'col': rng.choice([i, i, 2 * i + 1]), 'row_span': rng.choice([None, 1, 2, 3]),
+                              'cell_span': rng.choice([None, None, 1, 2]), 'header': rng.choice([None, 'true', 'false'])})
+        if rng.random() < 0.3:
+            rng.shuffle(cells)
+        return Case('caller', {'which': 'table', 'entry': entry, 'cells': cells}, tags)
 
     def cases(self, rng: random.Random, tier: str) -> Iterable[Case]:
         out: List[Case] = []
@@ -591,6 +691,19 @@ class C09(Check):
             # (the `elif` above leaves a few of these well-formed: only the empty / coords-less ones are outside)
             out.append(Case('derive', {'docs': docs, 'shift': [1, 2], 'shuffle_seed': 1},
                             ['random', 'malformed'] + ([OUTSIDE] if not docs or any(d is None for d in docs) else [])))
+        # ---- WAVE 4 (generated last: the streams above are what they were)
+        # regression inputs: a row in which a cell spanning two rows stands next to ordinary cells, by every entry
+        grid = [{'pts': [[100 * c, 40 * r], [100 * c + 100, 40 * r], [100 * c + 100, 40 * r + 40 * (sp or 1)], [100 * c, 40 * r + 40 * (sp or 1)]],
+                 'row': r, 'col': c, 'row_span': sp, 'cell_span': 1 if sp else None, 'header': 'true' if (r, c) == (0, 0) else None}
+                for r, c, sp in ((0, 0, None), (0, 1, 1), (0, 2, 2), (1, 0, None), (1, 1, 1))]
+        for entry in ('cells', 'dict', 'xml'):
+            out.append(Case('caller', {'which': 'table', 'entry': entry, 'cells': grid}, ['corpus', 'table']))
+        # table rows: optional attributes x geometry x entry point
+        for _ in range(n_rand // 2 if tier == 'quick' else n_rand // 4):
+            out.append(self._table_case(rng, ['random', 'table']))
+        # histories in which attached children are also added to a second container
+        for _ in range(n_rand // 4 if tier == 'quick' else n_rand // 8):
+            out.append(self._history_case(rng, ['random', 'shared-child'], share=True))
         return out
 
     # ------------------------------------------------------------------------ implementation
@@ -599,13 +712,30 @@ class C09(Check):
         docs = [mk_line(pdm, co, d) for d in docs_pts]
         return call(lambda: dump_coords(co.parse_derived_coords(docs)))
 
+    def _derive_used(self, docs_pts, seed: int) -> Dict[str, Any]:
+        """the derivation on objects that are then USED AGAIN: each input built in one of the accepted input forms,
+        derived from twice (same objects, second time in reversed order), every input re-read afterwards"""
+        co, pdm, _ = _real()
+        frng = random.Random(seed + 1)
+        built = call(lambda: [pdm.PageXMLTextLine(coords=mk_coords(co, d, frng.choice(FORMS))) for d in docs_pts])
+        if 'err' in built:      # (an input that is no coordinates object at all: nothing to derive from)
+            return {'coords': built, 'again': built, 'reversed': built, 'mutated': []}
+        docs = built['ok']
+        before = snaps(docs)
+        first = call(lambda: dump_coords(co.parse_derived_coords(docs)))
+        changed = mutated(before, docs)
+        again = call(lambda: dump_coords(co.parse_derived_coords(docs)))
+        rev = call(lambda: dump_coords(co.parse_derived_coords(docs[::-1])))
+        changed = changed or mutated(before, docs)
+        return {'coords': first, 'again': again, 'reversed': rev, 'mutated': changed}
+
     def impl(self, case: Case) -> Any:
         co, pdm, bdm = _real()
         inp = case.input
         if case.kind == 'derive':
             docs = inp['docs']
             allp = flat(docs)
-            out: Dict[str, Any] = {'coords': self._derive(docs)}
+            out: Dict[str, Any] = self._derive_used(docs, inp.get('shuffle_seed', 0))
             out['area2_all'] = call(lambda: two(bdm.poly_area(tup(allp))))
             if 'ok' in out['coords']:
                 hp = out['coords']['ok']['points']
@@ -664,7 +794,10 @@ class C09(Check):
                 val = tl if key == 'TextLine' else tr
                 if val:
                     d[key] = val[0] if len(val) == 1 else val     # xmltodict collapses a single child
-            return call(lambda: dump_coords(pa.parse_textregion(d).coords))
+            first = call(lambda: dump_coords(pa.parse_textregion(d).coords))
+            # the same element dict, now a used object, parsed a second time
+            first['again'] = call(lambda: dump_coords(pa.parse_textregion(d).coords))
+            return first
         raise ValueError(case.kind)
 
     def _impl_history(self, inp) -> Any:
@@ -682,16 +815,34 @@ class C09(Check):
                                    columns=[c for s, c in init_children if s == 1],
                                    text_regions=[c for s, c in init_children if s == 2],
                                    lines=[c for s, c in init_children if s == 3])
+        kids_before = snaps([c for _s, c in init_children])
         r = call(build)
         if 'err' in r:
             return r
         el = r['ok']
+        # every child object ever handed to the element, with what its coordinates were when it was handed in
+        watched = [c for _s, c in init_children]
+        before = list(kids_before)
         outs = []
         for op in inp['ops']:
             if op[0] == 'add':
                 child, kw = mk_child(pdm, co, elem, op[1], op[2])
+                watched.append(child)
+                before.append(snap(child.coords))
                 o = call(lambda: el.add_child(child, **kw))
                 o = {'unit': None} if 'ok' in o else o
+            elif op[0] == 'share':
+                # a child that is already attached here is ALSO added to a second, fresh container
+                attached = [c for c in watched if c.coords is not None and c.__class__.__name__ != 'PageXMLWord']
+                if not attached:
+                    o = {'shared': None}
+                else:
+                    child = attached[op[1] % len(attached)]
+                    pts_now = [list(p) for p in child.coords.points]
+                    second = pdm.PageXMLPage() if isinstance(child, pdm.PageXMLColumn) else pdm.PageXMLTextRegion()
+                    r2 = call(lambda: second.add_child(child))
+                    o = {'shared': dump_coords(second.coords) if 'ok' in r2 else r2, 'child': pts_now,
+                         'area2': call(lambda: two(second.area))}
             elif op[0] == 'area':
                 o = call(lambda: two(el.area))
                 o = {'area2': o['ok']} if 'ok' in o else o
@@ -704,22 +855,43 @@ class C09(Check):
             else:
                 raise ValueError(op)
             cur = el.coords
-            outs.append({'out': o, 'cur': [list(p) for p in cur.points] if cur is not None else None})
+            outs.append({'out': o, 'cur': [list(p) for p in cur.points] if cur is not None else None,
+                         'mutated': mutated(before, watched)})
         cur = el.coords
         return {'ok': {'outs': outs, 'coords': [list(p) for p in cur.points] if cur is not None else None}}
 
     def _impl_caller(self, inp) -> Any:
+        """{'ok': [{'docs': children's points, 'coords': derived}, …]} | {'err': …}, plus (WAVE 4) 'again': the same
+        call made a second time on the SAME objects, and 'mutated': the input objects that read differently afterwards"""
+        which = inp['which']
+        built = call(lambda: self._caller_setup(inp))
+        if 'err' in built:
+            return built
+        watched, run = built['ok']
+        before = snaps(watched)
+        first = call(run)
+        changed = mutated(before, watched)
+        again = call(run)
+        changed = changed or mutated(before, watched)
+        out = dict(first)
+        out['again'] = again
+        out['mutated'] = changed
+        return out
+
+    def _caller_setup(self, inp):
+        """(the coordinate-bearing input objects, the call to make on them)"""
         co, pdm, _ = _real()
-        which, groups = inp['which'], inp['groups']
+        which = inp['which']
+        groups = inp.get('groups')
         if which == 'merge_lines':
             import pagexml.helper.pagexml_helper as ph
             lines = [mk_line(pdm, co, g, text='ab', metadata={'parent_id': 'p'}) for g in groups]
-            return call(lambda: [{'docs': groups, 'coords': dump_coords(ph.merge_lines(lines).coords)}])
+            return lines, lambda: [{'docs': groups, 'coords': dump_coords(ph.merge_lines(lines).coords)}]
         if which == 'make_derived_column':
             import pagexml.column_parser as cp
             lines = [mk_line(pdm, co, g) for g in groups]
-            return call(lambda: [{'docs': groups,
-                                  'coords': dump_coords(cp.make_derived_column(lines, {}, 'page').coords)}])
+            return lines, lambda: [{'docs': groups,
+                                    'coords': dump_coords(cp.make_derived_column(lines, {}, 'page').coords)}]
         if which == 'make_rows_from_cells':
             import pagexml.parser as pa
             cells = [pdm.PageXMLTableCell(coords=co.Coords(tup(g)), row=r, col=i)
@@ -729,27 +901,70 @@ class C09(Check):
                 rows = pa.make_rows_from_cells(cells)
                 return [{'docs': [[list(p) for p in c.coords.points] for c in row.cells],
                          'coords': dump_coords(row.coords)} for row in rows]
-            return call(f)
+            return cells, f
+        if which == 'table':
+            return self._table_setup(inp)
         if which == 'merge_textregions':
             import pagexml.helper.pagexml_helper as ph
             regs = [pdm.PageXMLTextRegion(doc_id='r0', lines=[]), pdm.PageXMLTextRegion(doc_id='r1', lines=[])]
+            lines = []
             for i, (g, ri) in enumerate(zip(groups, inp['region_of'])):
                 line = mk_line(pdm, co, g, baseline=co.Baseline([(0, 10 * i), (5, 10 * i)]))
                 regs[ri].lines.append(line)
+                lines.append(line)
 
             def f():
                 m = ph.merge_textregions(regs, doc_id='m')
                 return [{'docs': [[list(p) for p in ln.coords.points] for ln in m.lines],
                          'coords': dump_coords(m.coords)}]
-            return call(f)
+            return lines, f
         if which == 'parse_textregion':
             import pagexml.parser as pa
             d = {'@id': 'r', 'TextLine': [{'@id': f'l{i}', 'Coords': {'@points': ' '.join(f'{p[0]},{p[1]}' for p in g)}}
                                          for i, g in enumerate(groups)]}
             if len(groups) == 1:
                 d['TextLine'] = d['TextLine'][0]      # xmltodict collapses a single child
-            return call(lambda: [{'docs': groups, 'coords': dump_coords(pa.parse_textregion(d).coords)}])
+            return [], lambda: [{'docs': groups, 'coords': dump_coords(pa.parse_textregion(d).coords)}]
         raise ValueError(which)
+
+    # -- table rows (WAVE 4): every way a table row comes about, with the optional cell attributes present
+    def _table_setup(self, inp):
+        """inp['cells'] = [{'pts', 'row', 'col', 'row_span', 'cell_span', 'header'}, …] (row / spans / header may be None),
+        inp['entry'] = 'cells'  make_rows_from_cells on PageXMLTableCell objects
+                     | 'dict'   parse_tableregion on the xmltodict form of a TableRegion element
+                     | 'xml'    parse_pagexml_file on a document holding that TableRegion"""
+        co, pdm, _ = _real()
+        import pagexml.parser as pa
+        cells, entry = inp['cells'], inp['entry']
+
+        def report(rows):
+            return [{'docs': [[list(p) for p in c.coords.points] for c in row.cells], 'coords': dump_coords(row.coords),
+                     'row': row.id} for row in rows]
+        if entry == 'cells':
+            objs = [pdm.PageXMLTableCell(doc_id=f'c{i}', coords=co.Coords(tup(c['pts'])), row=c['row'], col=c['col'],
+                                         row_span=c['row_span'], cell_span=c['cell_span'], header=c['header'])
+                    for i, c in enumerate(cells)]
+            return objs, lambda: report(pa.make_rows_from_cells(objs))
+
+        def pstr(g):
+            return ' '.join(f'{p[0]},{p[1]}' for p in g)
+        attr = (('row', '@row'), ('col', '@col'), ('row_span', '@rowSpan'), ('cell_span', '@cellSpan'), ('header', '@header'))
+        if entry == 'dict':
+            def f():
+                # (built anew for every call: the dict form is what xmltodict hands over, single child collapsed)
+                ds = [dict({'@id': f'c{i}', 'Coords': {'@points': pstr(c['pts'])}},
+                           **{k: str(c[a]) for a, k in attr if c[a] is not None}) for i, c in enumerate(cells)]
+                d = {'@id': 't', 'TableCell': ds[0] if len(ds) == 1 else ds}
+                return report(pa.parse_tableregion(d).rows)
+            return [], f
+        names = {'row': 'row', 'col': 'col', 'row_span': 'rowSpan', 'cell_span': 'cellSpan', 'header': 'header'}
+        body = ''.join('<TableCell id="c%d"%s><Coords points="%s"/></TableCell>' % (
+            i, ''.join(f' {names[a]}="{c[a]}"' for a, _k in attr if c[a] is not None), pstr(c['pts']))
+            for i, c in enumerate(cells))
+        xml = ('<?xml version="1.0" encoding="UTF-8"?><PcGts xmlns="http://schema.primaresearch.org/PAGE/gts/pagecontent/'
+               '2013-07-15"><Page imageFilename="t.jpg" imageWidth="100" imageHeight="100"><TableRegion id="t">'
+               + body + '</TableRegion></Page></PcGts>')
+        return [], lambda: report(pa.parse_pagexml_file('t.xml', pagexml_data=xml).table_regions[0].rows)
 
     # ------------------------------------------------------------------------ model
     def requests(self, case: Case):
@@ -784,9 +999,11 @@ class C09(Check):
                     if p is not None:
                         cands.append(p)
                         cands.extend(hulls(p))
+            # ('share' adds an attached child to a SECOND container: it is no operation on this element — the model's
+            #  store does not see it, and the element must read afterwards as it read before)
             return [{'p': 'C09', 'op': 'history',
-                     'args': {'nslots': nslots, 'init': inp['init'], 'kids': inp['kids'], 'ops': inp['ops'],
-                              'table': hull_table(cands)}}]
+                     'args': {'nslots': nslots, 'init': inp['init'], 'kids': inp['kids'],
+                              'ops': [op for op in inp['ops'] if op[0] != 'share'], 'table': hull_table(cands)}}]
         if case.kind == 'region':
             # text_regions + lines, the order the repaired code (75c00fd) and add_child use
             docs = [d for d in inp['regions'] + inp['lines'] if d is not None]
@@ -801,6 +1018,17 @@ class C09(Check):
             # one derive request per derived element, on the children lists the real call reported
             out = self.impl(case)
             reqs = []
+            if inp['which'] == 'table':
+                # the row model itself (Model/C09Rows.lean, theorem C09_table_rows_all_cells) on the cells as given:
+                # which rows there are, which cells each holds, and the coordinates derived from ALL of them
+                groups: Dict[Any, Pts] = {}
+                for c in inp['cells']:
+                    groups.setdefault(c['row'], []).extend(c['pts'])
+                cands: List[Pts] = []
+                for g in groups.values():
+                    cands.append(g)
+                    cands.extend(hulls(g))
+                reqs.append({'p': 'C09', 'op': 'rows', 'args': {'cells': inp['cells'], 'table': hull_table(cands)}})
             if 'ok' in out and isinstance(out['ok'], list):
                 for item in out['ok']:
                     allp = flat(item['docs'])
@@ -820,6 +1048,11 @@ class C09(Check):
             for k in ('area2_all', 'area2_hull'):
                 if norm_err(impl_out[k]) != norm_err(m[k]):
                     return f'{k}: impl={short(impl_out[k])} model={short(m[k])}'
+            # the model is a pure function of the points: its answer is also the answer for the second derivation from
+            # the same (used) objects and for the derivation from them in reversed order
+            for k in ('again', 'reversed'):
+                if k in impl_out and not same_coords_outcome(impl_out[k], m['coords']):
+                    return f'{k} (used objects): impl={short(impl_out[k])} model={short(m["coords"])}'
             if 'ok' in impl_out['coords'] and m['planar']:
                 if m['cert'] is not True:
                     return (f'HullCert rejects the hull the library produced: pts={short(flat(case.input["docs"]))} '
@@ -849,13 +1082,14 @@ class C09(Check):
             if 'err' in impl_out:
                 return f'constructor failed: {impl_out}'
             m = model_out[0]['ok']
-            io = [o['out'] for o in impl_out['ok']['outs']]
+            ops_m = [op for op in case.input['ops'] if op[0] != 'share']
+            io = [o['out'] for op, o in zip(case.input['ops'], impl_out['ok']['outs']) if op[0] != 'share']
             if len(io) != len(m['outs']):
                 return f'{len(io)} outputs, model {len(m["outs"])}'
             # coordinates that were ASSIGNED (constructor, `set`) are kept point by point: compared exactly;
             # coordinates DERIVED by a successful add_child: up to rotation / reflection
             derived = False
-            for i, (op, a, b) in enumerate(zip(case.input['ops'], io, m['outs'])):
+            for i, (op, a, b) in enumerate(zip(ops_m, io, m['outs'])):
                 if op[0] == 'set':
                     derived = False
                 if 'coords' in a and 'coords' in b:
@@ -883,8 +1117,29 @@ class C09(Check):
                     return f'impl={short(impl_out)} derive-model={short(d["coords"])}'
                 if 'ok' in impl_out and d['planar'] and (d['cert'] is not True or d['cert2'] is not True):
                     return f'HullCert rejects the hull of the children: {short(impl_out)}'
+            if 'again' in impl_out and not same_coords_outcome(impl_out['again'], impl_out):
+                return f'second parse of the same element dict: {short(impl_out["again"])} after {short(impl_out)}'
             return None
         if case.kind == 'caller':
+            if case.input['which'] == 'table':
+                rows_m, model_out = model_out[0], model_out[1:]
+                if 'ok' not in impl_out or 'ok' not in rows_m:
+                    if ('ok' in impl_out) != ('ok' in rows_m):
+                        return f'rows: impl={short(impl_out)} model={short(rows_m)}'
+                else:
+                    # rows by row index (their order is C08's subject), the cells of a row as the multiset of their
+                    # point lists, the derived coordinates up to rotation / reflection
+                    def cells_key(docs):
+                        return sorted(jd(d) for d in docs)
+                    ri = {r['row']: r for r in impl_out['ok']}
+                    rm = {r['row']: r for r in rows_m['ok']}
+                    if sorted(map(str, ri)) != sorted(map(str, rm)) or len(ri) != len(impl_out['ok']):
+                        return f'rows: impl has rows {[r["row"] for r in impl_out["ok"]]}, model {[r["row"] for r in rows_m["ok"]]}'
+                    for k in ri:
+                        if cells_key(ri[k]['docs']) != cells_key(rm[k]['docs']):
+                            return f'row {k}: cells impl={short(ri[k]["docs"])} model={short(rm[k]["docs"])}'
+                        if not same_coords_outcome({'ok': ri[k]['coords']}, {'ok': rm[k]['coords']}):
+                            return f'row {k}: coords impl={short(ri[k]["coords"])} model={short(rm[k]["coords"])}'
             if 'err' in impl_out:
                 return None if not model_out else f'impl={impl_out} model={short(model_out)}'
             for item, m in zip(impl_out['ok'], model_out):
@@ -892,6 +1147,14 @@ class C09(Check):
                     return f'impl={short(item["coords"])} model={short(m["ok"]["coords"])}'
                 if m['ok']['planar'] and m['ok']['cert'] is not True:
                     return f'HullCert rejects {short(item)}'
+            # the second call on the same (used) objects: the model's answers are pure, so they are its answers again
+            again = impl_out.get('again')
+            if again is not None:
+                if 'ok' not in again or len(again['ok']) != len(impl_out['ok']):
+                    return f'second call on the same objects: {short(again)} after {short(impl_out["ok"])}'
+                for item, m in zip(again['ok'], model_out):
+                    if not same_coords_outcome({'ok': item['coords']}, m['ok']['coords']):
+                        return f'second call on the same objects: impl={short(item["coords"])} model={short(m["ok"]["coords"])}'
             return None
         return None
 
@@ -941,6 +1204,15 @@ class C09(Check):
             bad(prefix + 'box', f'{what}: box {(c["x"], c["y"], c["w"], c["h"])} is not the union of the inputs\' boxes')
 
     @staticmethod
+    def _judge_used(bad, what: str, out: Any):
+        """the inputs of a derivation are still what they were (see the WAVE 4 comment above `snap`)"""
+        for m in (out.get('mutated') or [])[:1]:
+            b, a = m['before'], m['after']
+            diff = [k for k in (b or {}) if not isinstance(a, dict) or a.get(k) != b[k]] if isinstance(b, dict) else ['coords']
+            bad('inputs-mutated', f'{what}: input {m["input"]} was changed by the call ({", ".join(diff)}): before '
+                                  f'{short(b, 200)}, after {short(a, 200)}')
+
+    @staticmethod
     def _expected_area2(pts: Optional[Pts]) -> Optional[int]:
         """2 * area of the convex hull of the points; None where the statement is silent"""
         if pts is None or len(pts) <= 2 or degenerate(pts):
@@ -961,6 +1233,11 @@ class C09(Check):
                 return fs
             allp = flat(docs)
             self._judge_hull(bad, 'parse_derived_coords', allp, out['coords'])
+            self._judge_used(bad, 'parse_derived_coords', out)
+            if 'again' in out and not fs:       # (a first answer that is wrong already is reported once)
+                self._judge_hull(bad, 'parse_derived_coords (second call on the same objects)', allp, out['again'], 'again-')
+                self._judge_hull(bad, 'parse_derived_coords (same objects, reversed order)', allp, out['reversed'],
+                                 'again-')
             exp = self._expected_area2(allp)
             if exp is not None:
                 for k in ('area2_all', 'area2_hull'):
@@ -1010,8 +1287,26 @@ class C09(Check):
                 return fs
             nslots = REGION_SLOTS if inp['elem'] == 'region' else PAGE_SLOTS
             kids = [list(k) for k in inp['kids']]
+            prev_cur = None
             for i, (op, o) in enumerate(zip(inp['ops'], out['ok']['outs'])):
                 res, cur = o['out'], o['cur']
+                self._judge_used(bad, f'children after op {i} {op[0]}', o)
+                if op[0] == 'share':
+                    if res.get('shared') is not None:
+                        # the second container holds this one child: its coordinates are the hull of the child's points
+                        self._judge_hull(bad, f'second container after add_child of an attached child (op {i})',
+                                         res['child'], res['shared'] if 'err' in res['shared'] else {'ok': res['shared']},
+                                         'add-child-')
+                        exp = self._expected_area2(res['child'])
+                        if 'err' not in res['shared'] and res['area2'] != {'ok': exp}:
+                            bad('history-area', f'area of the second container (op {i}) is {res["area2"]}, the hull of '
+                                                f'its only child {short(res["child"], 200)} has 2*area {exp}')
+                    if i > 0 and cur != prev_cur:
+                        bad('coords-read', f'adding an attached child to a second container (op {i}) changed the '
+                                           f'coordinates of the first: {prev_cur} -> {cur}')
+                    prev_cur = cur
+                    continue
+                prev_cur = cur
                 if op[0] == 'add' and op[1] < nslots:
                     kids.append([op[1], op[2]])
                     p = ordered_points(nslots, kids)
@@ -1042,15 +1337,33 @@ class C09(Check):
                     'C09:parse_textregion-mixed-children' if mixed else f'C09:{k}', w, case, out)),
                     'parse_textregion (region without Coords)', allp,
                     out if ('err' in out or out['ok'] is not None) else {'err': 'coords is None'}, 'region-')
+                again = out.get('again')
+                if again is not None and not sub:
+                    self._judge_hull(lambda k, w: sub.append(Finding(
+                        'C09:parse_textregion-mixed-children' if mixed else f'C09:{k}', w, case, out)),
+                        'parse_textregion (region without Coords, the same element dict parsed again)', allp,
+                        again if ('err' in again or again['ok'] is not None) else {'err': 'coords is None'}, 'region-again-')
                 fs.extend(sub)
         elif case.kind == 'caller':
             if 'ok' not in out:
                 bad(f'caller-rejected:{inp["which"]}', f'{inp["which"]} failed with {out}')
                 return fs
+            name = 'make_rows_from_cells' if inp['which'] == 'table' else inp['which']
+            what = name + (f' (via {inp["entry"]})' if inp['which'] == 'table' else '')
             for item in out['ok']:
-                self._judge_hull(bad, inp['which'], flat(item['docs']), {'ok': item['coords']}
+                self._judge_hull(bad, what, flat(item['docs']), {'ok': item['coords']}
                                  if item['coords'] is not None else {'err': 'coords is None'},
-                                 f'caller-{inp["which"]}-')
+                                 f'caller-{name}-')
+            self._judge_used(bad, what, out)
+            again = out.get('again')
+            if again is not None and not fs:    # (a first answer that is wrong already is reported once)
+                if 'ok' not in again:
+                    bad(f'caller-rejected:{name}', f'{what}: the second call on the same objects failed with {again}')
+                else:
+                    for item in again['ok']:
+                        self._judge_hull(bad, what + ' (second call on the same objects)', flat(item['docs']),
+                                         {'ok': item['coords']} if item['coords'] is not None else {'err': 'coords is None'},
+                                         f'caller-{name}-again-')
         return fs
 
     # ------------------------------------------------------------------------ bookkeeping
@@ -1067,7 +1380,7 @@ class C09(Check):
             kinds = [op[0] for op in inp['ops']]
             return 'add' in kinds and 'area' in kinds
         if case.kind == 'caller':
-            p = flat(inp['groups'])
+            p = flat(inp['groups']) if 'groups' in inp else flat([c['pts'] for c in inp['cells']])
             return len(p) >= 3 and not degenerate(p)
         if case.kind == 'region':
             p = flat(inp['lines']) + flat(inp['regions'])
@@ -1140,6 +1453,21 @@ class C09(Check):
                         if len(grp) > 1:
                             yield Case('region', dict(inp, **{k: g[:i] + [grp[:j] + grp[j + 1:]] + g[i + 1:]}),
                                        case.tags)
+        elif case.kind == 'caller' and inp['which'] == 'table':
+            cs = inp['cells']
+            for i in range(len(cs)):
+                if len(cs) > 1:
+                    yield Case('caller', dict(inp, cells=cs[:i] + cs[i + 1:]), case.tags)
+            if inp['entry'] != 'cells':
+                yield Case('caller', dict(inp, entry='cells'), case.tags)
+            for i, c in enumerate(cs):
+                for k in ('header', 'cell_span', 'row_span'):
+                    if c[k] is not None:
+                        yield Case('caller', dict(inp, cells=cs[:i] + [dict(c, **{k: None})] + cs[i + 1:]), case.tags)
+                for j in range(len(c['pts'])):
+                    if len(c['pts']) > 1:
+                        yield Case('caller', dict(inp, cells=cs[:i] + [dict(c, pts=c['pts'][:j] + c['pts'][j + 1:])] + cs[i + 1:]),
+                                   case.tags)
         elif case.kind == 'caller':
             g = inp['groups']
             for i in range(len(g)):
